@@ -25,7 +25,9 @@ CONSTANTS WChar, WShort, WInt, WLong,          \* widths in bits, WChar < WShort
           ZPow2(_),                            \* 2^k for a TLC integer k >= 0
           ZShr(_, _),                          \* floor(a / 2^k), k a TLC integer
           ZWrap(_, _, _),                      \* ZWrap(w, sg, a): low w bits of a read as signed/unsigned
-          ZToInt(_)                            \* a small Z value as a TLC integer
+          ZToInt(_),                           \* a small Z value as a TLC integer
+          ZBitLen(_),                          \* number of significant bits of a Z value >= 0 (0 for 0), a TLC integer
+          PFlt, PDbl, PLdbl                    \* significand precisions of float / double / long double (24 / 53 / 64)
 
 Types == {"bool", "char", "uchar", "short", "ushort", "int", "uint", "long", "ulong", "enum"}
 W(t) == CASE t = "bool" -> 1
@@ -34,8 +36,14 @@ W(t) == CASE t = "bool" -> 1
           [] t \in {"int", "uint", "enum"} -> WInt
           [] OTHER -> WLong
 (* width of the object representation (sizeof * CHAR_BIT); _Bool occupies a char *)
-StoreW(t) == IF t = "bool" THEN WChar ELSE W(t)
-Sg(t) == t \in {"char", "short", "int", "long", "enum"}
+StoreW(t) == IF t = "bool" THEN WChar ELSE IF t = "float" THEN WInt ELSE IF t = "ldouble" THEN 2 * WLong ELSE W(t)
+Sg(t) == t \in {"char", "short", "int", "long", "enum", "float", "double", "ldouble"}
+(* the floating types.  Only integer-VALUED floating values are modelled (what conversions of integers,
+   unary -, + and -, comparisons, ?: and casts make of them), so a floating value is a Z value too. *)
+FTypes == {"float", "double", "ldouble"}
+IsF(t) == t \in FTypes
+Prec(t) == CASE t = "float" -> PFlt [] t = "double" -> PDbl [] OTHER -> PLdbl
+FRank(t) == CASE t = "float" -> 1 [] t = "double" -> 2 [] t = "ldouble" -> 3 [] OTHER -> 0
 Rank(t) == CASE t = "bool" -> 0
              [] t \in {"char", "uchar"} -> 1
              [] t \in {"short", "ushort"} -> 2
@@ -96,8 +104,47 @@ BitOp(op, t, x, y) ==
       r  == CASE op = "band" -> ZAndW(ux, uy) [] op = "bor" -> ZOrW(ux, uy) [] OTHER -> ZXorW(ux, uy)
   IN ZWrap(W(t), Sg(t), r)
 
+(* ---- integer <-> floating conversions (6.3.1.4, 6.3.1.5; Annex F.3: conversions from integer types
+   round to nearest, ties to even - the x86-64 psABI world gcc, clang and chibicc's generated code live in).
+   BitLen(m): number of significant bits of m >= 0.  FRound(p, v): the nearest integer with a p-bit
+   significand (the exponent range of every floating type exceeds the integers modelled). *)
+BitLen(m) == ZBitLen(m)                  \* the k with 2^(k-1) <= m < 2^k
+FRound(p, v) ==
+  LET neg == ZLt(v, Z0)
+      m   == IF neg THEN ZNeg(v) ELSE v
+      n   == BitLen(m)
+  IN IF n <= p THEN v
+     ELSE LET e   == n - p
+              q   == ZShr(m, e)
+              r   == ZSub(m, ZMul(q, ZPow2(e)))
+              h   == ZPow2(e - 1)
+              up  == ZLt(h, r) \/ (r = h /\ ZAndW(q, Z1) = Z1)
+              res == ZMul(IF up THEN ZAdd(q, Z1) ELSE q, ZPow2(e))
+          IN IF neg THEN ZNeg(res) ELSE res
+(* conversion of x : t1 to type t *)
+ConvG(t, t1, x) ==
+  IF IsF(t) THEN Res(TRUE, t, FRound(Prec(t), x))              \* exact when the value is representable (every widening is)
+  ELSE IF IsF(t1) THEN (IF t = "bool" THEN Res(TRUE, t, ZBool(x # Z0))                \* 6.3.1.2
+                        ELSE Res(InRange(x, t), t, x))          \* 6.3.1.4p1: undefined unless the integral part is representable
+  ELSE Res(TRUE, t, Convert(x, t))
+(* 6.3.1.8 with floating operands: the widest floating type involved *)
+UACG(t1, t2) == IF IsF(t1) \/ IsF(t2) THEN (IF FRank(t1) >= FRank(t2) THEN t1 ELSE t2) ELSE UAC(t1, t2)
+(* binary operators with a floating operand: + - (correctly rounded: the exact result rounded once, IEC 60559),
+   comparisons (exact), && ||.  Other operators are outside the modelled domain. *)
+FBin(op, t1, x, t2, y) ==
+  LET ct == UACG(t1, t2)  cx == ConvG(ct, t1, x).v  cy == ConvG(ct, t2, y).v IN
+  CASE op = "add" -> Res(TRUE, ct, FRound(Prec(ct), ZAdd(cx, cy)))
+    [] op = "sub" -> Res(TRUE, ct, FRound(Prec(ct), ZSub(cx, cy)))
+    [] op \in RelOps -> Res(TRUE, "int", ZBool(CASE op = "lt" -> ZLt(cx, cy) [] op = "gt" -> ZLt(cy, cx)
+                                                  [] op = "le" -> ZLe(cx, cy) [] op = "ge" -> ZLe(cy, cx)
+                                                  [] op = "eq" -> cx = cy [] OTHER -> cx # cy))
+    [] op = "land" -> Res(TRUE, "int", ZBool(x # Z0 /\ y # Z0))
+    [] op = "lor"  -> Res(TRUE, "int", ZBool(x # Z0 \/ y # Z0))
+    [] OTHER -> Bad
+
 (* a binary operator applied to operand values x : t1, y : t2 (each in range of its type) *)
 Bin(op, t1, x, t2, y) ==
+  IF IsF(t1) \/ IsF(t2) THEN FBin(op, t1, x, t2, y) ELSE
   LET rt == ResultType(op, t1, t2)
       ct == UAC(t1, t2)
   IN
@@ -131,15 +178,50 @@ Bin(op, t1, x, t2, y) ==
     [] OTHER       -> Res(TRUE, "int", ZBool(x # Z0 \/ y # Z0))
 
 Un(op, t1, x) ==
+  IF IsF(t1) THEN (CASE op = "pos" -> Res(TRUE, t1, x) [] op = "neg" -> Res(TRUE, t1, ZNeg(x))
+                     [] op = "lnot" -> Res(TRUE, "int", ZBool(x = Z0)) [] OTHER -> Bad) ELSE
   LET rt == ResultType(op, t1, t1)  cx == Convert(x, rt) IN
   CASE op = "pos"  -> Res(TRUE, rt, cx)
     [] op = "neg"  -> LET m == ZNeg(cx) IN Res(Sg(rt) => InRange(m, rt), rt, Convert(m, rt))
     [] op = "bnot" -> Res(TRUE, rt, Convert(ZSub(ZNeg(cx), Z1), rt))      \* ~x = -x-1
     [] OTHER       -> Res(TRUE, "int", ZBool(x = Z0))
 
-Cast(t, t1, x) == Res(TRUE, t, Convert(x, t))
+Cast(t, t1, x) == ConvG(t, t1, x)
 (* c ? y : z  (6.5.15p5) *)
-Cond(c, t2, y, t3, z) == LET rt == UAC(t2, t3) IN Res(TRUE, rt, Convert(IF c # Z0 THEN y ELSE z, rt))
+Cond(c, t2, y, t3, z) == LET rt == UACG(t2, t3) IN IF c # Z0 THEN ConvG(rt, t2, y) ELSE ConvG(rt, t3, z)
+
+(* ---- floating operands of operators whose result is an integer (6.5.8p6, 6.5.9p3, 6.5.3.3p5,
+   6.5.13-15, 6.3.1.2, 6.3.1.4; IEC 60559: NaN is unordered).  Only the order structure matters, so a
+   floating constant is [nan, ord, big, tr]: NaN?, its rank among the constants used (-0 and +0 have
+   the same rank 0), magnitude beyond every integer type?, and its value truncated toward zero; lit: the
+   harness writes it as a plain floating constant (not as an expression such as -1.5 or 0.0/0.0), so that
+   it may be the immediate operand of a cast in an integer constant expression (6.6p6). *)
+(* the floating constants used by the model check and the generator (name: see harness/c07.py fconst) *)
+FV == << [n |-> "nan",  nan |-> TRUE,  ord |-> 0,    big |-> FALSE, tr |-> 0, lit |-> FALSE],
+         [n |-> "ninf", nan |-> FALSE, ord |-> -99,  big |-> TRUE,  tr |-> 0, lit |-> FALSE],
+         [n |-> "m1_5", nan |-> FALSE, ord |-> -3,   big |-> FALSE, tr |-> -1, lit |-> FALSE],
+         [n |-> "m0",   nan |-> FALSE, ord |-> 0,    big |-> FALSE, tr |-> 0, lit |-> FALSE],
+         [n |-> "p0",   nan |-> FALSE, ord |-> 0,    big |-> FALSE, tr |-> 0, lit |-> TRUE],
+         [n |-> "p0_5", nan |-> FALSE, ord |-> 1,    big |-> FALSE, tr |-> 0, lit |-> TRUE],
+         [n |-> "p2",   nan |-> FALSE, ord |-> 4,    big |-> FALSE, tr |-> 2, lit |-> TRUE],
+         [n |-> "big",  nan |-> FALSE, ord |-> 50,   big |-> TRUE,  tr |-> 0, lit |-> TRUE],
+         [n |-> "inf",  nan |-> FALSE, ord |-> 99,   big |-> TRUE,  tr |-> 0, lit |-> FALSE] >>
+FTruth(x) == x.nan \/ x.ord # 0                       \* compares unequal to 0 (NaN does)
+FCmp(op, x, y) ==
+  LET un == x.nan \/ y.nan IN
+  Res(TRUE, "int", ZBool(
+    CASE op = "lt" -> ~un /\ x.ord < y.ord  [] op = "gt" -> ~un /\ x.ord > y.ord
+      [] op = "le" -> ~un /\ x.ord <= y.ord [] op = "ge" -> ~un /\ x.ord >= y.ord
+      [] op = "eq" -> ~un /\ x.ord = y.ord  [] op = "ne" -> un \/ x.ord # y.ord
+      [] op = "land" -> FTruth(x) /\ FTruth(y)
+      [] op = "lor"  -> FTruth(x) \/ FTruth(y)
+      [] op = "lnot" -> ~FTruth(x)
+      [] OTHER       -> FALSE))
+FCond(x) == Res(TRUE, "int", IF FTruth(x) THEN ZI(1) ELSE ZI(2))          \* x ? 1 : 2
+(* (T)x: _Bool compares with 0; otherwise the truncated value must be representable (else undefined) *)
+FToInt(x, td) == IF td = "bool" THEN Res(TRUE, td, ZBool(FTruth(x)))
+                 ELSE IF x.nan \/ x.big THEN Bad
+                 ELSE Res(InRange(ZI(x.tr), td), td, ZI(x.tr))
 
 (* ---- expression trees ---------------------------------------------------
    [k |-> "leaf", t, v] | [k |-> "un", op, a] | [k |-> "bin", op, a, b]
@@ -153,15 +235,61 @@ BinE(op, a, b) == [k |-> "bin", op |-> op, a |-> a, b |-> b]
 CondE(c, a, b) == [k |-> "cond", c |-> c, a |-> a, b |-> b]
 CastE(t, a) == [k |-> "cast", t |-> t, a |-> a]
 
+(* further nodes (C07, array bound / VLA decision and floating constants):
+   [k |-> "comma", a, b]   the comma operator (6.5.17): value and type of b, a evaluated first
+   [k |-> "call", t, v]    a call of a function returning v : t - not a constant; evaluating it is a side effect
+   [k |-> "fv", t, x]      a floating constant of type t whose value is FV's record x (may be NaN, infinite,
+                           fractional): only as the condition of ?:, as operand of ! && ||, or as the
+                           immediate operand of a cast to an integer type                                 *)
+CommaE(a, b) == [k |-> "comma", a |-> a, b |-> b]
+CallE(t, v) == [k |-> "call", t |-> t, v |-> v]
+FvE(t, x) == [k |-> "fv", t |-> t, x |-> x]
+
 RECURSIVE Ev(_)
+(* does the scalar e compare unequal to 0 (6.5.15p4, 6.5.13p3, 6.5.3.3p5) *)
+Truth(e) == IF e.k = "fv" THEN FTruth(e.x) ELSE Ev(e).v # Z0
+OkE(e) == e.k = "fv" \/ Ev(e).ok
 Ev(e) ==
-  CASE e.k = "leaf" -> Res(TRUE, e.t, e.v)
-    [] e.k = "un"   -> LET a == Ev(e.a) IN IF ~a.ok THEN Bad ELSE Un(e.op, a.t, a.v)
-    [] e.k = "cast" -> LET a == Ev(e.a) IN IF ~a.ok THEN Bad ELSE Cast(e.t, a.t, a.v)
-    [] e.k = "bin"  -> LET a == Ev(e.a)  b == Ev(e.b) IN
-                       IF ~a.ok \/ ~b.ok THEN Bad ELSE Bin(e.op, a.t, a.v, b.t, b.v)
-    [] OTHER        -> LET c == Ev(e.c)  a == Ev(e.a)  b == Ev(e.b) IN
-                       IF ~c.ok \/ ~a.ok \/ ~b.ok THEN Bad ELSE Cond(c.v, a.t, a.v, b.t, b.v)
+  CASE e.k \in {"leaf", "call"} -> Res(TRUE, e.t, e.v)
+    [] e.k = "un"   -> IF e.a.k = "fv" THEN (IF e.op = "lnot" THEN Res(TRUE, "int", ZBool(~FTruth(e.a.x))) ELSE Bad)
+                       ELSE LET a == Ev(e.a) IN IF ~a.ok THEN Bad ELSE Un(e.op, a.t, a.v)
+    [] e.k = "cast" -> IF e.a.k = "fv" THEN FToInt(e.a.x, e.t)
+                       ELSE LET a == Ev(e.a) IN IF ~a.ok THEN Bad ELSE Cast(e.t, a.t, a.v)
+    [] e.k = "comma" -> IF ~OkE(e.a) THEN Bad ELSE Ev(e.b)
+    [] e.k = "bin"  -> IF e.op \in LogOps /\ (e.a.k = "fv" \/ e.b.k = "fv")
+                       THEN (IF ~OkE(e.a) \/ ~OkE(e.b) THEN Bad
+                             ELSE Res(TRUE, "int", ZBool(IF e.op = "land" THEN Truth(e.a) /\ Truth(e.b) ELSE Truth(e.a) \/ Truth(e.b))))
+                       ELSE LET a == Ev(e.a)  b == Ev(e.b) IN
+                            IF ~a.ok \/ ~b.ok THEN Bad ELSE Bin(e.op, a.t, a.v, b.t, b.v)
+    [] e.k = "cond" -> LET a == Ev(e.a)  b == Ev(e.b) IN
+                       IF ~OkE(e.c) \/ ~a.ok \/ ~b.ok THEN Bad ELSE Cond(ZBool(Truth(e.c)), a.t, a.v, b.t, b.v)
+    [] OTHER        -> Bad                                   \* a bare "fv" has no Z value
+
+(* number of function calls the evaluation of e performs: both operands of an ordinary operator, the left
+   operand of , && || and the condition of ?: always, the right operand of && / || only if the left one is
+   true / false (6.5.13p4, 6.5.14p4), the selected arm of ?: only (6.5.15p4) *)
+RECURSIVE Effects(_)
+Effects(e) ==
+  CASE e.k = "call" -> 1
+    [] e.k \in {"leaf", "fv"} -> 0
+    [] e.k \in {"un", "cast"} -> Effects(e.a)
+    [] e.k = "comma" -> Effects(e.a) + Effects(e.b)
+    [] e.k = "bin" -> (IF e.op = "land" THEN Effects(e.a) + (IF Truth(e.a) THEN Effects(e.b) ELSE 0)
+                       ELSE IF e.op = "lor" THEN Effects(e.a) + (IF Truth(e.a) THEN 0 ELSE Effects(e.b))
+                       ELSE Effects(e.a) + Effects(e.b))
+    [] OTHER -> Effects(e.c) + (IF Truth(e.c) THEN Effects(e.a) ELSE Effects(e.b))
+(* integer constant expression (6.6p6): integer type; operands integer constants (leaves) and floating
+   constants that are the immediate operands of casts; casts only to integer types; no comma operator and
+   no function call (6.6p3; the "unless not evaluated" exemption of p3 does not widen p6's list of operands -
+   gcc and clang agree: `0 && f()` is folded but is not an integer constant expression) *)
+RECURSIVE IsICE(_)
+IsICE(e) ==
+  CASE e.k = "leaf" -> ~IsF(e.t)
+    [] e.k \in {"call", "fv", "comma"} -> FALSE
+    [] e.k = "un" -> IsICE(e.a)
+    [] e.k = "cast" -> ~IsF(e.t) /\ (IsICE(e.a) \/ (e.a.k = "fv" /\ e.a.x.lit) \/ (e.a.k = "leaf" /\ IsF(e.a.t)))
+    [] e.k = "bin" -> IsICE(e.a) /\ IsICE(e.b)
+    [] OTHER -> IsICE(e.c) /\ IsICE(e.a) /\ IsICE(e.b)
 
 (* ---- pointers into an array (6.5.6p8-9, 6.5.8p5, 6.5.9p6) --------------
    A pointer value is the index k of the array element it points to, 0 <= k <= n
@@ -195,42 +323,18 @@ EnumDef(op, outer, tc, c) ==
   LET r == Bin(op, "int", outer, tc, c) IN
   [ok |-> r.ok /\ InRange(r.v, "int") /\ InRange(ZAdd(r.v, Z1), "int"), v |-> r.v, next |-> ZAdd(r.v, Z1)]
 
-(* ---- floating operands of operators whose result is an integer (6.5.8p6, 6.5.9p3, 6.5.3.3p5,
-   6.5.13-15, 6.3.1.2, 6.3.1.4; IEC 60559: NaN is unordered).  Only the order structure matters, so a
-   floating constant is [nan, ord, big, tr]: NaN?, its rank among the constants used (-0 and +0 have
-   the same rank 0), magnitude beyond every integer type?, and its value truncated toward zero. *)
-(* the floating constants used by the model check and the generator (name: see harness/c07.py fconst) *)
-FV == << [n |-> "nan",  nan |-> TRUE,  ord |-> 0,    big |-> FALSE, tr |-> 0],
-         [n |-> "ninf", nan |-> FALSE, ord |-> -99,  big |-> TRUE,  tr |-> 0],
-         [n |-> "m1_5", nan |-> FALSE, ord |-> -3,   big |-> FALSE, tr |-> -1],
-         [n |-> "m0",   nan |-> FALSE, ord |-> 0,    big |-> FALSE, tr |-> 0],
-         [n |-> "p0",   nan |-> FALSE, ord |-> 0,    big |-> FALSE, tr |-> 0],
-         [n |-> "p0_5", nan |-> FALSE, ord |-> 1,    big |-> FALSE, tr |-> 0],
-         [n |-> "p2",   nan |-> FALSE, ord |-> 4,    big |-> FALSE, tr |-> 2],
-         [n |-> "big",  nan |-> FALSE, ord |-> 50,   big |-> TRUE,  tr |-> 0],
-         [n |-> "inf",  nan |-> FALSE, ord |-> 99,   big |-> TRUE,  tr |-> 0] >>
-FTruth(x) == x.nan \/ x.ord # 0                       \* compares unequal to 0 (NaN does)
-FCmp(op, x, y) ==
-  LET un == x.nan \/ y.nan IN
-  Res(TRUE, "int", ZBool(
-    CASE op = "lt" -> ~un /\ x.ord < y.ord  [] op = "gt" -> ~un /\ x.ord > y.ord
-      [] op = "le" -> ~un /\ x.ord <= y.ord [] op = "ge" -> ~un /\ x.ord >= y.ord
-      [] op = "eq" -> ~un /\ x.ord = y.ord  [] op = "ne" -> un \/ x.ord # y.ord
-      [] op = "land" -> FTruth(x) /\ FTruth(y)
-      [] op = "lor"  -> FTruth(x) \/ FTruth(y)
-      [] op = "lnot" -> ~FTruth(x)
-      [] OTHER       -> FALSE))
-FCond(x) == Res(TRUE, "int", IF FTruth(x) THEN ZI(1) ELSE ZI(2))          \* x ? 1 : 2
-(* (T)x: _Bool compares with 0; otherwise the truncated value must be representable (else undefined) *)
-FToInt(x, td) == IF td = "bool" THEN Res(TRUE, td, ZBool(FTruth(x)))
-                 ELSE IF x.nan \/ x.big THEN Bad
-                 ELSE Res(InRange(ZI(x.tr), td), td, ZI(x.tr))
-
 (* ---- contexts: the implicit conversion each context performs ---------- *)
 (* initializer / argument / return / simple assignment (6.5.16.1p2, 6.5.2.2p7, 6.8.6.4p3):
    the value is converted to the destination type; an assignment expression
    has that converted value and the (unqualified) type of the left operand. *)
 AsIf(td, r) == IF ~r.ok THEN Bad ELSE Res(TRUE, td, Convert(r.v, td))
+(* a static-storage bit-field member `t f : w` initialised with x : t1.  6.7.9p11: as by simple assignment, so
+   the value is converted to the type of the member - _Bool: compared with 0 (6.3.1.2), from a floating type:
+   truncated (6.3.1.4) -; 6.7.2.1p10: a bit-field is an integer type of the specified width; a value a
+   signed bit-field cannot represent wraps (implementation-defined; gcc, clang) *)
+BitFieldInit(t, w, t1, x) ==
+  LET c == ConvG(t, t1, x) IN
+  IF ~c.ok THEN Bad ELSE Res(TRUE, t, IF t = "bool" THEN c.v ELSE ZWrap(w, Sg(t), c.v))
 (* controlling expression: compared unequal to 0 *)
 Test(r) == IF ~r.ok THEN Bad ELSE Res(TRUE, "int", ZBool(r.v # Z0))
 (* E1 op= E2  ==  E1 = E1 op (E2), E1 evaluated once (6.5.16.2p3) *)
